@@ -696,7 +696,13 @@ evhttp_make_header(struct evhttp_connection *evcon, struct evhttp_request *req)
 	}
 	evbuffer_add(output, "\r\n", 2);
 
-	if (evhttp_have_expect(req, 0) != CONTINUE &&
+	if (req->kind == EVHTTP_RESPONSE && !evhttp_response_needs_body(req)) {
+		/* 1xx, 204 and 304 responses and responses to HEAD end with
+		 * their header section; a body the application supplied all
+		 * the same would be read as the start of the next response. */
+		evbuffer_drain(req->output_buffer,
+		    evbuffer_get_length(req->output_buffer));
+	} else if (evhttp_have_expect(req, 0) != CONTINUE &&
 		evbuffer_get_length(req->output_buffer)) {
 		/*
 		 * For a request, we add the POST data, for a reply, this
